@@ -8,8 +8,9 @@ Open Scope Z_scope.
 
 (* byte string of a Coq string literal *)
 Definition bs (s : string) : list N := List.map N_of_ascii (list_ascii_of_string s).
+Arguments bs s%string.
 
-Definition len (s : list N) : Z := Z.of_nat (List.length s).
+Definition len {A} (s : list A) : Z := Z.of_nat (List.length s).
 
 (* strings.Index(s, single-byte sep): first index or -1 *)
 Fixpoint go_index_from (i : Z) (c : N) (s : list N) : Z :=
@@ -51,30 +52,30 @@ Definition fields_on (sep : N) (s : list N) : list (list N) :=
    encodings wherever they occur is exact. *)
 Definition space_width (s : list N) : nat :=
   match s with
-  | 9 :: _ | 10 :: _ | 11 :: _ | 12 :: _ | 13 :: _ | 32 :: _ => 1
-  | 194 :: 133 :: _ | 194 :: 160 :: _ => 2
-  | 225 :: 154 :: 128 :: _ => 3
+  | 9 :: _ | 10 :: _ | 11 :: _ | 12 :: _ | 13 :: _ | 32 :: _ => 1%nat
+  | 194 :: 133 :: _ | 194 :: 160 :: _ => 2%nat
+  | 225 :: 154 :: 128 :: _ => 3%nat
   | 226 :: 128 :: c :: _ =>
       if ((128 <=? c) && (c <=? 138) || (c =? 168) || (c =? 169) || (c =? 175))%N
-      then 3 else 0
-  | 226 :: 129 :: 159 :: _ => 3
-  | 227 :: 128 :: 128 :: _ => 3
-  | _ => 0
+      then 3%nat else 0%nat
+  | 226 :: 129 :: 159 :: _ => 3%nat
+  | 227 :: 128 :: 128 :: _ => 3%nat
+  | _ => 0%nat
   end%N.
 
 (* the same test on a REVERSED string (for trimming on the right: Go decodes the last
    rune by walking back to the lead byte) *)
 Definition space_width_rev (s : list N) : nat :=
   match s with
-  | 9 :: _ | 10 :: _ | 11 :: _ | 12 :: _ | 13 :: _ | 32 :: _ => 1
-  | 133 :: 194 :: _ | 160 :: 194 :: _ => 2
-  | 128 :: 154 :: 225 :: _ => 3
-  | 159 :: 129 :: 226 :: _ => 3
-  | 128 :: 128 :: 227 :: _ => 3
+  | 9 :: _ | 10 :: _ | 11 :: _ | 12 :: _ | 13 :: _ | 32 :: _ => 1%nat
+  | 133 :: 194 :: _ | 160 :: 194 :: _ => 2%nat
+  | 128 :: 154 :: 225 :: _ => 3%nat
+  | 159 :: 129 :: 226 :: _ => 3%nat
+  | 128 :: 128 :: 227 :: _ => 3%nat
   | c :: 128 :: 226 :: _ =>
       if ((128 <=? c) && (c <=? 138) || (c =? 168) || (c =? 169) || (c =? 175))%N
-      then 3 else 0
-  | _ => 0
+      then 3%nat else 0%nat
+  | _ => 0%nat
   end%N.
 
 Definition flush (cur : list N) : list (list N) :=
@@ -118,11 +119,60 @@ Definition trim_space (s : list N) : list N :=
    unicode tables); every other non-ASCII or invalid byte yields non-ASCII output, which
    cannot equal an ASCII key. [lower_key] computes ToLower on the strings where the result
    is pure ASCII and leaves other bytes >= 128 in place. *)
+Definition lower1 (c : N) : N := (if (65 <=? c) && (c <=? 90) then c + 32 else c)%N.
+
 Fixpoint lower_key (s : list N) : list N :=
   match s with
   | [] => []
-  | (196 :: 176 :: r)%N => 105%N :: lower_key_skip r 0
-  | (226 :: 132 :: 170 :: r)%N => 107%N :: lower_key_skip r 0
-  | c :: r => (if (65 <=? c) && (c <=? 90) then c + 32 else c)%N :: lower_key r
-  end
-with lower_key_skip (s : list N) (k : nat) : list N := lower_key s.
+  | c :: r =>
+      match c, r with
+      | 196%N, 176%N :: r2 => 105%N :: lower_key r2
+      | 226%N, 132%N :: 170%N :: r3 => 107%N :: lower_key r3
+      | _, _ => lower1 c :: lower_key r
+      end
+  end.
+
+(* strconv.Atoi on a 64-bit platform: optional sign, at least one decimal digit, nothing
+   else (no underscores in base 10), and an int64 range check. None = error. *)
+Definition is_digit (c : N) : bool := ((48 <=? c) && (c <=? 57))%N.
+
+Fixpoint digits_val (acc : Z) (s : list N) : option Z :=
+  match s with
+  | [] => Some acc
+  | c :: r => if is_digit c then digits_val (acc * 10 + (Z.of_N c - 48)) r else None
+  end.
+
+Definition atoi (s : list N) : option Z :=
+  let '(neg, body) :=
+    match s with
+    | 43%N :: r => (false, r)
+    | 45%N :: r => (true, r)
+    | _ => (false, s)
+    end in
+  match body with
+  | [] => None
+  | _ =>
+      match digits_val 0 body with
+      | None => None
+      | Some n =>
+          let v := if neg then - n else n in
+          if (- 2 ^ 63 <=? v) && (v <=? 2 ^ 63 - 1) then Some v else None
+      end
+  end.
+
+Example str_ex1 : split_on 45 (bs "1-5") = [bs "1"; bs "5"]. Proof. reflexivity. Qed.
+Example str_ex2 : split_on 45 (bs "") = [[]]. Proof. reflexivity. Qed.
+Example str_ex3 : fields_on 44 (bs "1,,2,") = [bs "1"; bs "2"]. Proof. reflexivity. Qed.
+Example str_ex4 : go_fields (bs "  a b	c ") = [bs "a"; bs "b"; bs "c"]. Proof. reflexivity. Qed.
+Example str_ex5 : go_fields ([42; 194; 160; 42])%N = [[42]; [42]]%N. Proof. reflexivity. Qed.
+Example str_ex6 : trim_space (bs " a b  ") = bs "a b". Proof. reflexivity. Qed.
+Example str_ex7 : trim_space ([32; 97; 226; 128; 168])%N = [97%N]. Proof. reflexivity. Qed.
+Example str_ex8 : atoi (bs "+05") = Some 5. Proof. reflexivity. Qed.
+Example str_ex9 : atoi (bs "-0") = Some 0. Proof. reflexivity. Qed.
+Example str_ex10 : atoi (bs "9223372036854775808") = None. Proof. reflexivity. Qed.
+Example str_ex11 : atoi (bs "-9223372036854775808") = Some (- 2 ^ 63). Proof. reflexivity. Qed.
+Example str_ex12 : atoi (bs "+") = None. Proof. reflexivity. Qed.
+Example str_ex13 : atoi (bs "1_0") = None. Proof. reflexivity. Qed.
+Example str_ex14 : lower_key (bs "FR" ++ [196; 176])%N = bs "fri". Proof. reflexivity. Qed.
+Example str_ex15 : go_slice (E:=unit) (bs "TZ=UTC") 3 (-1) = Panic. Proof. reflexivity. Qed.
+Example str_ex16 : go_index 32 (bs "TZ=UTC") = -1. Proof. reflexivity. Qed.
